@@ -315,7 +315,19 @@ def _origin(index, f, name):
     """describe a foreign-vocabulary origin of local `name`, or None"""
     from ..defuse import local_defs
 
-    defs = local_defs(f).get(name, [])
+    defs = list(local_defs(f).get(name, []))
+    # `_param = _raw_param(call)`: the object a small package helper builds and returns is the helper's `dict(...)`
+    for d in list(defs):
+        if isinstance(d, ast.Call):
+            h = index.funcs.get(index.callee(f.mod, d, f) or "")
+            if h is not None and not h.mod.is_test:
+                from ..defuse import expand_aliases
+
+                for r in iter_own(h.node):
+                    if isinstance(r, ast.Return) and r.value is not None:
+                        v = expand_aliases(h, r.value)
+                        if isinstance(v, ast.Call) and norm(v.func) in ("dict", "OrderedDict") and v.args:
+                            defs.append(v)
     for d in defs:
         if isinstance(d, ast.Call) and norm(d.func) in ("dict", "OrderedDict") and d.args:
             # dict(<iterable of (key, value) pairs>) : keys come from run-time data
